@@ -1,8 +1,8 @@
 SPECIFICATION Spec
 CONSTANTS
-  Sizes <- SizesSmall
-  NB = 4
-  Times = {1, 2, 5, 14, 17, 21, 50, 61}
+  SizesC <- SizesSmall
+  NBC = 4
+  Times = {1, 2, 5, 17, 61}
   MaxOps = 3
   Repaired = FALSE
 INVARIANTS TotalOK WindowsOK RangeOK LatestOK
